@@ -1,6 +1,10 @@
 //! Correspondence harness for matreex: runs case files against the real crate.
 mod elem;
 mod hist;
+mod kernel;
+
+#[global_allocator]
+static ALLOC: kernel::CountingAlloc = kernel::CountingAlloc;
 
 use elem::*;
 use hist::*;
@@ -33,6 +37,10 @@ fn main() {
                 a: toks[1..].iter().map(|t| t.parse().unwrap()).collect(),
                 rows: vec![],
             }),
+            Some("K") => {
+                // K id debug fn args...
+                writeln!(w, "K {} {}", toks[1], kernel::run_k(&toks[3..])).unwrap();
+            }
             Some("E") => {
                 let h = header.take().expect("E without H");
                 case_no += 1;
